@@ -27,6 +27,7 @@ RULE = ("runs of the real generator in fresh processes: canonical; after a full 
         "value-equal, every symbol block equals (display name, LaTeX name, dimension) of the imported attribute; no "
         ":symbols:/:quantity_notation: role left and every produced :attr: target exists; runs are byte-identical; the post-run "
         "battery equals the battery of a fresh process. evaluations = pages + members + runs; distinct = distinct (page, member).")
+RULE = RULE + ' Also: :attr: targets resolved against what the generated pages declare (py:currentmodule + py:data); documented members of package __init__ files expected on the package page; partial generations of single packages (thorough).'
 ASSUMPTIONS = ["vf/parse_code.py / vf/parse_latex.py readers", "the HTML (Sphinx) stage is outside the statement and not run",
                "leaf identity between the page and the imported module is by display name (clashes -> inconclusive)"]
 MIN_REACH = {"quick": {"documented_members_expected": 3000, "runs_ok": 4, "pages_checked": 700, "equations_code_checked": 500, "equations_latex_checked": 450,
